@@ -29,7 +29,7 @@ RULE = ('cases = one generated SVG document: a tree of nested svg:g groups (dept
         'both / radius larger than half a side, circle, ellipse, line with some coordinates omitted, polyline / polygon with comma, '
         'space and sign separators, path), element order shuffled; read by Document.paths, Document.paths_from_group, svg2paths and '
         'SaxDocument; distinct by document text; non-trivial if a reader result was compared with the reference flattener')
-RULE += '; a single oversized rect radius, mirror transforms with equal magnitudes'
+RULE += '; a single oversized rect radius, mirror transforms with equal magnitudes; transform arguments in every number spelling of the grammar (.5, -.5, 5., +5, 5e0) in the lexical-variant documents'
 ASSUMPTIONS = ['vt/ref/flatten.py implements the SVG shape and transform semantics correctly',
                'curved shapes are compared as point sets: two-sided polyline distance <= 1e-6 of the (transformed) size; straight-edged shapes '
                'additionally by their defining points (64*eps*|M|*size + 1e-9*size)',
